@@ -41,6 +41,8 @@ type Gen struct {
 	simRate  float64 // share of transactions that are simulated (on a discarded branch) right before being delivered
 	batchRate float64 // share of transactions that open a multi-message transaction (the next 1..4 transactions share a branch)
 	batchLeft int     // messages still to go into the open multi-message transaction
+	oddAcct  []string // accounts whose address is not 20 bytes long
+	oddRaw   [][]byte
 	hold     bool  // ops emitted while set carry blk=same: they stay in the block of the op before them
 	capture  *[]Op // when set, ops are collected instead of executed (used by the crash scenario)
 	stats    map[string]int
@@ -68,6 +70,17 @@ func NewGen(seed int64, ops, obs *bufio.Writer) *Gen {
 		s, _ := bech32.ConvertAndEncode(bech32Prefix, raw)
 		g.acct = append(g.acct, s)
 		g.acctRaw = append(g.acctRaw, raw)
+	}
+	for _, n := range []int{32, 1, 7, 21, 255} {
+		var raw []byte
+		for i := 0; len(raw) < n; i++ {
+			h := sha256.Sum256([]byte(fmt.Sprintf("odd-acct-%d-%d", n, i)))
+			raw = append(raw, h[:]...)
+		}
+		raw = raw[:n]
+		s, _ := bech32.ConvertAndEncode(bech32Prefix, raw)
+		g.oddAcct = append(g.oddAcct, s)
+		g.oddRaw = append(g.oddRaw, raw)
 	}
 	for i := 0; i < 5; i++ {
 		h := sha256.Sum256([]byte(fmt.Sprintf("attester-%d", i)))
@@ -343,7 +356,14 @@ func (g *Gen) pick(n int) int { return g.rng.Intn(n) }
 func (g *Gen) chance(p float64) bool {
 	return g.rng.Float64() < p
 }
-func (g *Gen) anyAcct() string { return g.acct[g.pick(len(g.acct))] }
+// anyAcct: one of the six ordinary (20-byte) accounts; one time in fourteen an account whose address has another length
+// (the SDK admits 1..255 bytes): 32 bytes, 1 byte, 7, 21, 255 -- funded like the others.
+func (g *Gen) anyAcct() string {
+	if len(g.oddAcct) > 0 && g.pick(14) == 0 {
+		return g.oddAcct[g.pick(len(g.oddAcct))]
+	}
+	return g.acct[g.pick(len(g.acct))]
+}
 
 func pad32(b []byte) []byte {
 	r := make([]byte, 32)
@@ -719,6 +739,9 @@ func (g *Gen) initStandard(nAtt, t int) {
 	g.config()
 	for i := range g.acctRaw {
 		g.fund(g.acctRaw[i], mintDenom, "1000000000000")
+	}
+	for i := range g.oddRaw {
+		g.fund(g.oddRaw[i], mintDenom, "1000000000000")
 	}
 	g.fund(g.acctRaw[0], "UUSDC", "5000")
 	g.fund(g.acctRaw[0], "other", "5000")
